@@ -274,9 +274,17 @@ def ex_config_schema(repo):
     # how the answer is applied
     sp = re.search(r"fn spawn_fetch_configuration.*?\n    \}\n", back, re.S).group(0)
     null_default = bool(re.search(r"if config_value\.is_null\(\) \{\s*LspConfig::default\(\)", sp))
+    # do the two cache options reach the storer, and does the start-up refresh wait for the answer?
+    reaches = bool(re.search(r"storer\.configure\(\s*new_config\.cache\.refresh_interval,\s*new_config\.ignore_prerelease,?\s*\)", sp))
+    br = re.search(r"fn spawn_background_refresh.*?\n    \}\n", back, re.S)
+    waits = bool(br and re.search(r"async move \{\s*let _ = configured\.await;", br.group(0))
+                 and re.search(r"let configured = self\.spawn_fetch_configuration\(\);\s*self\.spawn_background_refresh\(configured\);", back))
+    cache_rs = non_test(rd(repo, "src/version/cache.rs"))
+    stores = bool(re.search(r"fn configure\(&self, refresh_interval: i64, ignore_prerelease: bool\) \{\s*self\.refresh_interval\s*\.store\(refresh_interval, Ordering::Relaxed\);\s*self\.ignore_prerelease\s*\.store\(ignore_prerelease, Ordering::Relaxed\);", cache_rs))
     return {"configTopKeys": [f[0] for f in top], "configCacheKeys": [f[0] for f in cache], "configRegistryKeys": reg_keys,
             "configRegistryField": [f[0] for f in reg], "configDefaultIgnorePrerelease": d_ip == "true",
-            "configDefaultEnabled": d_en == "true", "configNullIsDefault": null_default}
+            "configDefaultEnabled": d_en == "true", "configNullIsDefault": null_default,
+            "configReachesCache": reaches and stores, "refreshWaitsForConfig": waits}
 
 
 EXTRACTORS = [ex_detect, ex_config, ex_checker, ex_registries, ex_cache, ex_parsers, ex_config_schema, ex_panic_sites]
@@ -313,6 +321,8 @@ def render(vals):
     L.append(f"def configDefaultIgnorePrerelease : Bool := {'true' if vals['configDefaultIgnorePrerelease'] else 'false'}")
     L.append(f"def configDefaultEnabled : Bool := {'true' if vals['configDefaultEnabled'] else 'false'}")
     L.append(f"def configNullIsDefault : Bool := {'true' if vals['configNullIsDefault'] else 'false'}")
+    L.append(f"def configReachesCache : Bool := {'true' if vals['configReachesCache'] else 'false'}")
+    L.append(f"def refreshWaitsForConfig : Bool := {'true' if vals['refreshWaitsForConfig'] else 'false'}")
     L.append(f"def dependencyFields : List String := {lean_list(vals['dependencyFields'])}")
     L.append(f"def nonRegistryPrefixes : List String := {lean_list(vals['nonRegistryPrefixes'])}")
     L.append(f"def dependencyTables : List String := {lean_list(vals['dependencyTables'])}")
